@@ -456,6 +456,13 @@ func (c *normCtx) tryExtract(value ast.Value, expected Input) (ast.Value, bool) 
 	if expected == nil {
 		return value, false
 	}
+	// Only valid literals are extracted: once a literal has become a
+	// variable the validator no longer sees it, so g(li: true) for a
+	// [Int] argument would be accepted (and could even be served from an
+	// entry cached for a valid request of the same shape).
+	if ok, _ := isValidLiteralValue(expected, value); !ok {
+		return value, false
+	}
 	// Coerce literal once at extract time. We pass nil variableValues
 	// because we already know the value tree contains no variables.
 	coerced := valueFromAST(value, expected, nil)
